@@ -27,6 +27,7 @@ REAL = ["simulator.Simulator/EventQueue", "workload.Task/TaskGraph/Workload/JobG
         "bundled scheduling policies (unmodified)"]
 STUB = ["quiet loggers + in-memory CSV handler (utils.setup_logging seam)",
         "FakeWallClock behind schedulers.*.time", "StaticLoader (BaseWorkloadLoader subclass)",
+        "cumulative windowed loader modelled on the bundled AlibabaLoader (fault kind F4) in worlds with loader.kind=batch",
         "harness ChaosPolicy (BaseScheduler subclass) in chaos profile only"]
 
 
